@@ -540,7 +540,13 @@ impl WatchDispatcher {
                     match result {
                         Ok(event) => self.dispatch_event(event).await,
                         Err(broadcast::error::RecvError::Lagged(n)) => {
-                            warn!("WatchDispatcher lagged {} events (slow watchers)", n);
+                            // The broadcast ring overwrote `n` events this dispatcher had not
+                            // read yet, and there is no way to tell which watchers they were
+                            // for. Delivering later events as if nothing happened would be a
+                            // silent gap: end every stream with CANCELED so that clients
+                            // re-sync (read, then watch again), as they do on buffer overflow.
+                            warn!("WatchDispatcher lagged {} events; cancelling all watchers", n);
+                            self.cancel_all_watchers();
                         }
                         Err(broadcast::error::RecvError::Closed) => {
                             debug!("Broadcast channel closed, WatchDispatcher stopping");
@@ -555,6 +561,29 @@ impl WatchDispatcher {
             }
         }
         debug!("WatchDispatcher stopped");
+    }
+
+    /// End every active watch stream with a CANCELED event and unregister the watchers.
+    fn cancel_all_watchers(&self) {
+        for map in [&self.registry.exact, &self.registry.prefix] {
+            let targets: Vec<(Bytes, Vec<u64>)> = map
+                .iter()
+                .map(|e| {
+                    for watcher in e.value().iter() {
+                        // the channel keeps one slot in reserve for exactly this event
+                        let _ = watcher
+                            .sender
+                            .try_send(crate::watch::make_cancel_event(e.key().clone()));
+                    }
+                    (e.key().clone(), e.value().iter().map(|w| w.id).collect())
+                })
+                .collect();
+            for (key, ids) in targets {
+                for id in ids {
+                    self.registry.unregister(id, &key);
+                }
+            }
+        }
     }
 
     /// Broadcast a synthetic Progress event to ALL active watchers regardless of key.
